@@ -14,3 +14,7 @@ add("C12", "obs_faithful theorems; observation recomputed by the Lean observer f
 add("C19", "slice_transpose, slice_addElement_same/other, addElement_structure, isEqual_refl/symm/iff, assertDifferent_iff proved for all "
            "trees/batch sizes/indices over JAX's own representation of a pytree (treedef + flat leaves); random pytrees and real environment "
            "states run through the real helpers and the model", _note)
+
+add("C16", "generate_valid, valid_iff, replace_nil/only_named/WF, equality is an equivalence that distinguishes every attribute, "
+           "nested_eq_iff_children, toGym_member proved for all specs/values over a transliteration of specs.py; random spec trees and "
+           "boundary values run through the real specs and the model", _note)
